@@ -5,7 +5,7 @@ From Coq Require Extraction.
 From Coq Require Import ExtrOcamlBasic.
 From Coq Require Import Strings.Byte.
 From Coq Require Import List NArith ZArith.
-From Goit Require Import Bytes Sha1 Regex GoRegex Obj Refs Tree Index Commit Reflog Config Ignore World Repo.
+From Goit Require Import Bytes Sha1 Regex GoRegex Obj Refs Tree Index Commit Reflog Config Ignore World Repo LogView.
 
 Definition all_bytes : list byte := map Nb (map N.of_nat (seq 0 256)).
 
@@ -21,4 +21,4 @@ Extraction "model.ml"
   ign_load ign_match re_search
   re_resetRegexp re_signRegexp re_headRegexp re_branchRegexp re_identRegexp re_directoryRegexp re_sha1Regexp
   reset_arg read_hash dec parse_dec scan_lines
-  parse_head render_head parse_ref render_ref get_commit st_set tree_listing kind_s.
+  parse_head render_head parse_ref render_ref get_commit st_set tree_listing kind_s log_view.
